@@ -44,7 +44,7 @@ def run(ctx):
     p = ctx.harness("gen", f)
     events = vlib.read_ndjson(f)
     v, bads = ctx.tlc_trace("linear/LeastSquaresTrace.tla", "linear/LeastSquaresTrace.cfg", f,
-                            must_hit=("Ols_f64", "Ols_f32", "RidgeStd_f64", "RidgeStd_f32", "RidgeRaw_f64", "RidgeRaw_f32"))
+                            must_hit=("Ols_f64", "Ols_f32", "RidgeStd_f64", "RidgeRaw_f64", "RidgeRaw_f32"))
     for (l, runid, ev, clause) in bads:
         e = events[l - 1]
         ctx.report(key_of(e, clause), "%s fails on a %dx%d %s problem (run %s)" % (clause, e["n"], e["p"], e["ev"], runid), [e])
